@@ -434,6 +434,20 @@ def do_call(pool, call):
     elif call.get("elem") == "tuple":
         values = [(v,) if v % 2 else (v, v + 100) for v in values]
     data = make_input(values, call.get("lazy", False), call.get("delays"), call.get("end_delay", 0.0))
+    kind = call.get("container")
+    if kind == "deque":                 # a Sequence that supports integer indexing only (no slices)
+        import collections
+        data = collections.deque(values)
+    elif kind == "tuple":
+        data = tuple(values)
+    elif kind == "range":
+        data = range(values[0], values[0] + len(values)) if values else range(0)
+    elif kind == "circular":            # the library's own ring buffer: a Sequence without slice support
+        from windpyutils.structures.circular_buffer import CircularBuffer
+        cb = CircularBuffer(max(1, len(values)))
+        for v in values:
+            cb.put(v)
+        data = cb
     fn = pool.imap if call.get("ordered", True) else pool.imap_unordered
     return values, list(fn(data, call["cs"]))
 
